@@ -157,3 +157,32 @@ pub fn ctx_rng(ctx: &Ctx, case: u64) -> Rng {
     ctx.note_case(case);
     Rng::new(ctx.case_seed(case))
 }
+
+/// Query strings served out of one fixed allocation: consecutive queries get strings at
+/// the same addresses (what a caller does who reads traces into a reused line buffer).
+/// An answer may depend on the characters of a query only. The returned reference is
+/// valid until the next `put` into the same slot; callers compare and drop every answer
+/// before they ask the next question.
+pub struct ReusedQuery {
+    mem: Box<std::cell::UnsafeCell<[u8; ReusedQuery::SLOT * 4]>>,
+}
+
+impl ReusedQuery {
+    pub const SLOT: usize = 1024;
+    pub fn new() -> ReusedQuery {
+        ReusedQuery { mem: Box::new(std::cell::UnsafeCell::new([0u8; ReusedQuery::SLOT * 4])) }
+    }
+    pub fn fits(s: &str) -> bool {
+        s.len() <= ReusedQuery::SLOT
+    }
+    pub fn put<'x>(&self, slot: usize, s: &str) -> &'x str {
+        assert!(slot < 4 && s.len() <= ReusedQuery::SLOT);
+        // SAFETY: writes stay inside the slot; the bytes written are a copy of a `str`;
+        // no reference handed out earlier for this slot is used after this write.
+        unsafe {
+            let base = (self.mem.get() as *mut u8).add(slot * ReusedQuery::SLOT);
+            std::ptr::copy_nonoverlapping(s.as_ptr(), base, s.len());
+            std::str::from_utf8_unchecked(std::slice::from_raw_parts(base, s.len()))
+        }
+    }
+}
